@@ -177,6 +177,12 @@ func edCheckC08(work bool, file string, ops []edOp) (sig, info string) {
 				name = d
 			}
 		}
+		if name == "require" && want[i] == typed[i] && edRequireDetail(run.Typed, run.Reparsed) == "require-indirect" {
+			// prediction = typed list, only indirect flags differ from the re-parse: name the recorded structural cause
+			if d := edIndirectDetail(run); d == edSigRemainder {
+				name = d
+			}
+		}
 		s, inf := "c08-directives:"+name, "predicted "+want[i]+" reparsed "+got[i]
 		if !edKnownCause(s) {
 			return s, inf
